@@ -91,9 +91,9 @@ class SigWorld(HistoryWorld):
             w = [rng.randint(1, 2 ** rng.choice([4, 32, 60])) for _ in range(n)]
         if signers is not None:
             return {'n': n, 'weights': w, 'key_seed': rng.getrandbits(64), 'net': {'drop': 0, 'dup': rng.choice([0, 0.2]), 'jitter': rng.choice([0, 3, 10])},
-                    'byz': 0, 'blk_seed': rng.getrandbits(64), 'steps': 3, 'respell': False, 'signers': signers}
+                    'byz': 0, 'blk_seed': rng.getrandbits(64), 'steps': 400, 'respell': False, 'signers': signers}
         return {'n': n, 'weights': w, 'key_seed': rng.getrandbits(64), 'net': {'drop': rng.choice([0, 0.1, 0.4]), 'dup': rng.choice([0, 0.2, 0.5]), 'jitter': rng.choice([0, 3, 10])},
-                'byz': rng.choice([0, 0, 1, 2]), 'blk_seed': rng.getrandbits(64), 'steps': 3, 'respell': rng.random() < 0.4}
+                'byz': rng.choice([0, 0, 1, 2]), 'blk_seed': rng.getrandbits(64), 'steps': 400, 'respell': rng.random() < 0.4}
 
     def new_state(self, ctx):
         cfg = ctx.cfg
@@ -120,6 +120,7 @@ class SigWorld(HistoryWorld):
             self._simulate(st, ctx)
             st.queue.append({'op': 'check'})
             st.queue.append({'op': 'heal_check'})
+            st.queue.append({'op': 'replay_sibling', 'which': ctx.rng.choice(['file', 'root']), 'byte': ctx.rng.randrange(32), 'subset': ctx.rng.random() < 0.3})
             return st.queue.pop(0)
         return None
 
@@ -264,6 +265,32 @@ class SigWorld(HistoryWorld):
         ctx.probe('healed-round')
         if not ok:
             self.V(ctx, 'liveness-after-heal', 'check_block_signatures', 'all-honest', 'after faults stopped, the complete set of valid signatures by all %d validators was rejected: %r' % (len(sigs), res))
+
+    def op_replay_sibling(self, st, op, ctx):
+        """After the genuine set for block A has been accepted, a relay presents the same signatures for a sibling
+        identifier B that shares A's root hash (or file hash) - they do not sign B."""
+        if not st.nodes:
+            return
+        sigs = [self._sig(st, {'v': i, 'kind': 'valid', 'bit': 0}) for i in range(len(st.keys))]
+        clean = [{'node_id_short': s['node_id_short'], 'signature': s['signature']} for s in sigs]
+        ok, res = call(check_block_signatures, list(st.nodes), clean, st.blk)
+        if not ok:
+            return   # reported by heal_check
+        rh, fh = bytearray(st.blk.root_hash), bytearray(st.blk.file_hash)
+        (fh if op['which'] == 'file' else rh)[op['byte'] % 32] ^= 0x01
+        sib = BlockIdExt(st.blk.workchain, st.blk.shard, st.blk.seqno, bytes(rh), bytes(fh))
+        ctx.fault('relay-replays-set-for-sibling-block-' + op['which'])
+        ok, res = call(check_block_signatures, list(st.nodes), clean, sib)
+        ctx.evaluated(1)
+        ctx.obs(ok)
+        if ok:
+            self.V(ctx, 'accepted-invalid-set', 'check_block_signatures', 'signatures-of-sibling-block-after-genuine-check',
+                   'after the genuine set for block A was accepted, the same %d signatures were accepted for a block id that differs from A in its %s hash' % (len(clean), op['which']))
+            return
+        # and the genuine set is still accepted afterwards
+        ok, res = call(check_block_signatures, list(st.nodes), clean, st.blk)
+        if not ok:
+            self.V(ctx, 'rejected-valid-set', 'check_block_signatures', 'after-rejected-sibling', 'the genuine set was rejected after a rejected replay: %r' % (res,))
 
     def shrink_op(self, op):
         return ()
